@@ -56,6 +56,7 @@ def run(R):
               'a sample (all in thorough) of depth-2 formulas, sampled 3-state structures in thorough, random <= 6 states / depth <= 4; '
               'non-trivial = the formula has a temporal operator and the answer is neither empty nor all states; distinct by (structure, formula)')
     known_finding_probe(R)
+    run_print_stream(R, 'C01', 'CTL', 1500 if R.thorough else 150)
     run_mc(R, 'CTL', cases(R))
 
 
